@@ -50,7 +50,9 @@ TC08(rec, rf) == (~rec.exempt /\ rf.s.maxd <= RealCap) =>
                     IF WholeMode(rec) THEN (RAccepting(rf.s) => InFam(rec))
                     ELSE ((RLive(rf.s) /\ HasOpen(rec.raw)) => InFam(rec))
 TC09(rec, rf) == InFam(rec) => IF WholeMode(rec) THEN RAccepting(rf.r) ELSE RLive(rf.r)
-TC10(rec, rf) == (InFam(rec) /\ RLive(rf.s) /\ rf.s.maxd <= RealCap /\ (WholeMode(rec) => RAccepting(rf.s)))
+\* (a document that C08 obliges to be in the family and that is reported outside it also misses its class)
+TC10(rec, rf) == ((InFam(rec) \/ (~rec.exempt /\ (~WholeMode(rec) => HasOpen(rec.raw))))
+                  /\ RLive(rf.s) /\ rf.s.maxd <= RealCap /\ (WholeMode(rec) => RAccepting(rf.s)))
                     => rec.cls \in AllowedClasses(rf.t, rf.s)
 \* C16: the real scanner's recursion level never exceeds cap+1, whatever the input
 TC16(rec) == rec.maxlvl <= 2 * RealCap + 8
